@@ -7,7 +7,7 @@ mod verif_replay {
     use std::sync::mpsc::{channel, Receiver};
     use std::time::Duration;
 
-    struct Engine { child: Child, stdin: ChildStdin, rx: Receiver<String> }
+    struct Engine { child: Child, stdin: Option<ChildStdin>, rx: Receiver<String> }
     impl Engine {
         fn start() -> Engine {
             let mut child = Command::new(env!("CARGO_BIN_EXE_rust_chess_engine")).stdin(Stdio::piped()).stdout(Stdio::piped())
@@ -16,9 +16,11 @@ mod verif_replay {
             let out = child.stdout.take().unwrap();
             let (tx, rx) = channel();
             std::thread::spawn(move || { for l in BufReader::new(out).lines() { if let Ok(l) = l { if tx.send(l).is_err() { break; } } else { break; } } });
-            Engine { child, stdin, rx }
+            Engine { child, stdin: Some(stdin), rx }
         }
-        fn send(&mut self, s: &str) { writeln!(self.stdin, "{s}").unwrap(); self.stdin.flush().unwrap(); }
+        fn raw(&mut self, b: &[u8]) { let i = self.stdin.as_mut().unwrap(); i.write_all(b).unwrap(); i.write_all(b"\n").unwrap(); i.flush().unwrap(); }
+        fn send(&mut self, s: &str) { self.raw(s.as_bytes()); }
+        fn close_input(&mut self) { self.stdin.take(); }
         /// lines up to and including the one starting with `last` (None on time-out)
         fn until(&mut self, last: &str, secs: u64) -> Option<Vec<String>> {
             let mut v = vec![];
@@ -30,7 +32,7 @@ mod verif_replay {
             }
         }
     }
-    impl Drop for Engine { fn drop(&mut self) { let _ = writeln!(self.stdin, "quit"); let _ = self.child.kill(); let _ = self.child.wait(); } }
+    impl Drop for Engine { fn drop(&mut self) { if let Some(i) = self.stdin.as_mut() { let _ = writeln!(i, "quit"); } let _ = self.child.kill(); let _ = self.child.wait(); } }
 
     fn is_move(t: &str) -> bool {
         let b = t.as_bytes();
@@ -153,6 +155,16 @@ mod verif_replay {
                 assert!(!rest.iter().any(|l| l.starts_with("bestmove")), "C09: a second bestmove line after `go {lim}` on `position {pos}`: {rest:?}");
             }
         }
+        // the clock budget is the mover's own: time/20 + increment/2 (15 ms here) -- allow 8 s of scheduling slack
+        for (pos, lim) in [("startpos moves e2e4", "wtime 300 btime 300 winc 20000 binc 0"), ("startpos", "wtime 300 btime 300 winc 0 binc 20000"),
+                           ("startpos moves e2e4", "wtime 200000 btime 300"), ("startpos", "wtime 300 btime 200000")] {
+            e.send(&format!("position {pos}")); e.send(&format!("go {lim}"));
+            let t0 = std::time::Instant::now();
+            e.until("bestmove", 8).unwrap_or_else(|| panic!("C09: `go {lim}` on `position {pos}` (budget 15 ms for the side to move) was not answered within 8 s"));
+            assert!(t0.elapsed() < Duration::from_secs(8), "C09: `go {lim}` on `position {pos}` (budget 15 ms for the side to move) was answered only after {:?}", t0.elapsed());
+            std::thread::sleep(Duration::from_millis(120));
+            e.send("isready"); e.until("readyok", 30).expect("readyok");
+        }
         // go infinite is answered once stop arrives
         e.send("position startpos"); e.send("go infinite");
         std::thread::sleep(Duration::from_millis(300));
@@ -171,6 +183,11 @@ mod verif_replay {
             b"setoption name Hash value".to_vec(), b"setoption name  value  ".to_vec(), b"setoption name a name b value c value d".to_vec(),
             b"position".to_vec(), b"position fen".to_vec(), b"position startpos moves".to_vec(), b"position startpos moves e2e5".to_vec(),
             b"position startpos moves zz".to_vec(), b"position moves e2e4".to_vec(), b"position fen moves".to_vec(),
+            // the FEN argument dropped altogether (an invalid FEN text is outside the property: "FEN arguments are assumed to be valid FEN")
+            // (fewer than six tokens follow `fen`: with six or more the engine takes them for the FEN itself)
+            b"position fen moves e2e4 e7e5 g1f3".to_vec(), b"position fen moves e2e4".to_vec(), b"position fen 8/8/8/8/8/8/8/8 w".to_vec(),
+            b"go wtime 60000 btime 60000 movestogo 0".to_vec(), b"go movestogo 0".to_vec(), b"go wtime 0 btime 0 winc 0 binc 0 movestogo 0".to_vec(),
+            b"go depth 0".to_vec(), b"go nodes 0".to_vec(), b"go depth 300".to_vec(), b"go wtime -5 btime -5".to_vec(),
             b"".to_vec(), b"   ".to_vec(), b"\t".to_vec(), b"xyzzy".to_vec(), b"uci uci uci".to_vec(), b"isready now".to_vec(), b"stop".to_vec(), b"ponderhit".to_vec(),
             b"debug".to_vec(), b"debug maybe".to_vec(), b"register".to_vec(), b"ucinewgame extra".to_vec(),
             vec![0xff, 0xfe, b'g', b'o'], vec![b'g', b'o', b' ', 0xc3, 0x28], "go d\u{e9}pth 3".as_bytes().to_vec(),
@@ -179,7 +196,7 @@ mod verif_replay {
         let mut e = Engine::start();
         e.send("uci"); e.until("uciok", 20).expect("uciok");
         for l in lines.iter() {
-            e.stdin.write_all(l).unwrap(); e.stdin.write_all(b"\n").unwrap(); e.stdin.flush().unwrap();
+            e.raw(l);
             e.send("isready");
             if e.until("readyok", 20).is_none() {
                 let st = e.child.try_wait().ok().flatten();
@@ -190,7 +207,19 @@ mod verif_replay {
         e.send("position startpos moves e2e4"); e.send("go depth 1");
         e.until("bestmove", 30).expect("C15: engine does not search after malformed input");
         e.send("quit");
-        for _ in 0..50 { if e.child.try_wait().unwrap().is_some() { return; } std::thread::sleep(Duration::from_millis(100)); }
-        panic!("C15: quit does not end the engine within 5 s");
+        let mut ended = false;
+        for _ in 0..50 { if e.child.try_wait().unwrap().is_some() { ended = true; break; } std::thread::sleep(Duration::from_millis(100)); }
+        assert!(ended, "C15: quit does not end the engine within 5 s");
+        // end of input: while idle, and while a search is running
+        for running in [false, true] {
+            let mut e = Engine::start();
+            e.send("uci"); e.until("uciok", 20).expect("uciok");
+            e.send("position startpos");
+            if running { e.send("go infinite"); std::thread::sleep(Duration::from_millis(300)); }
+            e.close_input();
+            let mut ended = false;
+            for _ in 0..80 { if e.child.try_wait().unwrap().is_some() { ended = true; break; } std::thread::sleep(Duration::from_millis(100)); }
+            assert!(ended, "C15: the engine does not end within 8 s when its input is closed (search running: {running})");
+        }
     }
 }
